@@ -290,13 +290,16 @@ class LbWorld(object):
   def _op_LeaveX(self, e):
     """A leave notification during which closing the departing member's channel raises (the server set logs the error of
     the callback and carries on with later notifications)."""
-    for n in self.heap_nodes():
-      if self.ep_idx(n.endpoint) == e:
-        n.channel.close_raises = True
+    flagged = [n.channel for n in self.heap_nodes() if self.ep_idx(n.endpoint) == e]
+    for ch in flagged:
+      ch.close_raises = True
     try:
       self.ssp.on_leave(self.server(e))
     except stubs.StubCloseError:
       pass
+    finally:
+      for ch in flagged:
+        ch.close_raises = False      # only a Close() made during this notification fails (a deferred close at drain works)
     if e in self.members:
       self.members.remove(e)
 
